@@ -2,6 +2,7 @@ import LokyModel.Tracker
 /-! line protocol driver for M3 (one output line per input line):
 
     `reset`        → `ready folder,file,semlock`         (new tracker, empty registry; table order)
+    `lines <hex>`  → `lines <hex>,<hex>,...`             (how the byte stream is cut by successive `f.readline()`s)
     `line <hex>`   → `<events> #<keys>/<sum>`            (one `f.readline()` result, hex encoded, may be empty)
     `eof`          → `final folder[n=c,...] file[...] semlock[...]`   (registry when EOF is read)
     `sweep`        → `<events>` or `<events> aborted`    (the `finally:` block)
@@ -42,7 +43,7 @@ def showKind : Kind → String
   | .folder => "folder" | .file => "file" | .semlock => "semlock"
 
 def showErr : Err → String
-  | .decode => "UnicodeDecodeError" | .unknownType => "ValueError" | .unknownCmd => "RuntimeError"
+  | .decode => "UnicodeDecodeError" | .malformed => "ValueError" | .unknownType => "ValueError" | .unknownCmd => "RuntimeError"
   | .key => "KeyError" | .base => "KeyboardInterrupt"
 
 def showEvent : Event → String
@@ -88,7 +89,8 @@ def handleOp (reg : Registry) (ws : List String) : Registry × String :=
   | ["sweep"] =>
     let (es, ab) := sweep theEnv reg
     (reg, showEvents es ++ (if ab then " aborted" else ""))
-  | ["lines", h] =>   -- `readLines` of a whole stream: the hex of every line, for the splitting check
+  | ["lines"] => (reg, "lines")
+  | ["lines", h] =>   -- `readLines` of a whole stream: what the successive `f.readline()` calls return
     match unhex h.toList with
     | some bs => (reg, "lines " ++ ",".intercalate ((readLines bs).map (fun l =>
         String.join (l.map (fun b => (hexDigit (b.toNat / 16)).toString ++ (hexDigit (b.toNat % 16)).toString)))))
